@@ -147,7 +147,7 @@ def run(chk):
             begun = [x["begin"] for x in recs if "begin" in x]
             unfinished = [b for b in begun if b not in events]
             bad = inputs[unfinished[-1]] if unfinished else None
-            kind = ("timeout" if rc == -9 else "leak" if "LeakSanitizer" in err else
+            kind = ("timeout" if rc in (-9, 75) else "leak" if "LeakSanitizer" in err else
                     "sanitizer" if ("Sanitizer" in err or "runtime error" in err) else "crash")
             chk.violation("c02:abort:%s:%s" % (kind, json.dumps(bad, sort_keys=True)[:300] if bad else "chunk"),
                           "Theo::compile did not return normally (%s, exit %s) %s: %s"
